@@ -13,6 +13,8 @@ PROFILES = {
     "fullmatch": dict(market_params={}, script_params={"types": ("LIMIT",)}, client=lambda rng: {"full_match": True}),
     "multi": dict(market_params=HOSTILE_MARKET, script_params={"n_orders": (1, 5)}, n_markets=(2, 3), n_strategies=(1, 3)),
     "event": dict(market_params={"p_removal": 0.2, "p_inplay": 0.5}, script_params={"n_orders": (1, 5)}, n_markets=(2, 3), n_strategies=(1, 2), event_processing=True),
+    "recorded": dict(market_params={}, script_params={"n_orders": (3, 10), "sizes": (0.5, 2.0, 5.0, 10.0, 25.5)}, n_markets=(1, 2), recorded=True),
+    "recorded_event": dict(market_params={}, script_params={"n_orders": (3, 8)}, n_markets=(2, 2), recorded=True, event_processing=True),
     "fastlat": dict(market_params=HOSTILE_MARKET, script_params={"n_orders": (2, 7)}, config=lambda rng: {"place_latency": rng.choice((0.0, 0.001, 0.12)), "cancel_latency": rng.choice((0.0, 0.001, 0.17)), "update_latency": rng.choice((0.0, 0.15)), "replace_latency": rng.choice((0.0, 0.001, 0.28))}),
 }
 
